@@ -703,7 +703,7 @@ func (s *BgpServer) postFilterpath(peer *peer, path *table.Path) *table.Path {
 	// remove local-pref attribute
 	// we should do this after applying export policy since policy may
 	// set local-preference
-	if path != nil && !peer.isIBGPPeer() && !peer.isRouteServerClient() {
+	if path != nil && !peer.isIBGPPeer() && !peer.isRouteServerClient() && !peer.isConfederationMember() {
 		path.RemoveLocalPref()
 	}
 
@@ -1301,8 +1301,9 @@ func (s *BgpServer) propagateUpdate(peer *peer, pathList []*table.Path) {
 			defer bucket.Unlock()
 
 			// Strip LOCAL_PREF from eBGP peers on ingress.
-			// RFC 4271: LOCAL_PREF is only used in iBGP.
-			if peer != nil && !peer.isIBGPPeer() && !peer.isRouteServerClient() {
+			// RFC 4271: LOCAL_PREF is only used in iBGP; RFC 5065: and
+			// between the member ASes of a confederation.
+			if peer != nil && !peer.isIBGPPeer() && !peer.isRouteServerClient() && !peer.isConfederationMember() {
 				path.RemoveLocalPref()
 			}
 
